@@ -35,6 +35,8 @@ type Case struct {
 	// (exact): distances scale with the coordinates, at any magnitude at which the
 	// squares (2-D) or fourth powers (3-D) of the coordinates are finite and normal.
 	Exp int `json:"exp,omitempty"`
+	// NegZero: zero ordinates of the odd-numbered points are handed over as -0.
+	NegZero bool `json:"negZero,omitempty"`
 }
 
 // curExp is Case.Exp of the case being evaluated (one case at a time per process).
@@ -199,6 +201,28 @@ func genCase(t *rapid.T) Case {
 		}
 		c.Class += "+offset"
 	}
+	// the configuration flattened into a coordinate plane or onto an axis (one or two
+	// ordinates of every point are 0), the zeros of every other point written as -0
+	if rapid.IntRange(0, 5).Draw(t, "negzero") == 0 {
+		c.NegZero = true
+		dims := 3
+		switch c.Fn {
+		case "seg-seg2", "pt-seg2", "perp2", "pt-ls2":
+			dims = 2
+		}
+		d0 := rapid.IntRange(0, dims-1).Draw(t, "zerodim")
+		d1 := d0
+		if dims == 3 && rapid.IntRange(0, 3).Draw(t, "twozero") == 0 {
+			d1 = (d0 + 1 + rapid.IntRange(0, 1).Draw(t, "zerodim2")) % 3
+		}
+		for i := range c.P {
+			c.P[i][d0], c.P[i][d1] = 0, 0
+		}
+		if c.Fn == "perp2" && len(c.P) > 2 && c.P[1] == c.P[2] {
+			c.P[2][(d0+1)%2]++ // the perpendicular distance needs a line
+		}
+		c.Class += "+negzero"
+	}
 	if rapid.IntRange(0, 3).Draw(t, "scaled") == 0 {
 		c.Exp = rapid.SampledFrom([]int{-lim, lim, -lim / 2, lim / 2, 260, -260, 100, -100, 30, -30}).Draw(t, "exp")
 		if c.Exp > lim || c.Exp < -lim || rapid.Bool().Draw(t, "expany") {
@@ -249,6 +273,22 @@ func genCase0(t *rapid.T) Case {
 	}
 }
 
+// c2of, c3of: point i of the case as the coordinate handed to the library. With
+// NegZero the zero ordinates of the odd-numbered points are written as -0 (the same
+// position as 0: two coincident end points may then differ in the sign of a zero).
+func c2of(c Case, i int) geom.Coord { return negz(c, i, c2(c.P[i])) }
+func c3of(c Case, i int) geom.Coord { return negz(c, i, c3(c.P[i])) }
+func negz(c Case, i int, co geom.Coord) geom.Coord {
+	if c.NegZero && i%2 == 1 {
+		for d := range co {
+			if co[d] == 0 {
+				co[d] = math.Copysign(0, -1)
+			}
+		}
+	}
+	return co
+}
+
 func c2(p [3]int64) geom.Coord { return geom.Coord{sc(float64(p[0])), sc(float64(p[1]))} }
 func c3(p [3]int64) geom.Coord {
 	return geom.Coord{sc(float64(p[0])), sc(float64(p[1])), sc(float64(p[2]))}
@@ -292,7 +332,7 @@ func prop(c Case) error {
 	defer func() { curExp = 0 }()
 	// cc is point i as the coordinate handed to a 2-D function
 	cc := func(i int) geom.Coord {
-		out := c2(P[i])
+		out := c2of(c, i)
 		switch c.Extra {
 		case 1:
 			out = append(out, float64(i)+0.25)
@@ -307,10 +347,10 @@ func prop(c Case) error {
 	case "dist3":
 		tol := 1e-12 * scaleOf(c, 3)
 		d2 := exact.Dist2_3(e3(P[0]), e3(P[1]))
-		if err := check("xyz.Distance(p,q)", xyz.Distance(c3(P[0]), c3(P[1])), d2, tol, true); err != nil {
+		if err := check("xyz.Distance(p,q)", xyz.Distance(c3of(c, 0), c3of(c, 1)), d2, tol, true); err != nil {
 			return err
 		}
-		if err := check("xyz.Distance(q,p)", xyz.Distance(c3(P[1]), c3(P[0])), d2, tol, true); err != nil {
+		if err := check("xyz.Distance(q,p)", xyz.Distance(c3of(c, 1), c3of(c, 0)), d2, tol, true); err != nil {
 			return err
 		}
 	case "pt-seg2":
@@ -336,10 +376,10 @@ func prop(c Case) error {
 	case "pt-seg3":
 		tol := 1e-12 * scaleOf(c, 3)
 		d2 := exact.PointSegDist2_3(e3(P[0]), e3(P[1]), e3(P[2]))
-		if err := check("xyz.DistancePointToLine(p,a,b)", xyz.DistancePointToLine(c3(P[0]), c3(P[1]), c3(P[2])), d2, tol, false); err != nil {
+		if err := check("xyz.DistancePointToLine(p,a,b)", xyz.DistancePointToLine(c3of(c, 0), c3of(c, 1), c3of(c, 2)), d2, tol, false); err != nil {
 			return err
 		}
-		if err := check("xyz.DistancePointToLine(p,b,a)", xyz.DistancePointToLine(c3(P[0]), c3(P[2]), c3(P[1])), d2, tol, false); err != nil {
+		if err := check("xyz.DistancePointToLine(p,b,a)", xyz.DistancePointToLine(c3of(c, 0), c3of(c, 2), c3of(c, 1)), d2, tol, false); err != nil {
 			return err
 		}
 	case "pt-ls2":
@@ -431,7 +471,7 @@ func prop(c Case) error {
 		tol := 1e-12 * scaleOf(c, 3)
 		d2 := exact.SegSegDist2_3(e3(P[0]), e3(P[1]), e3(P[2]), e3(P[3]))
 		for vi, idx := range variants {
-			got := xyz.DistanceLineToLine(c3(P[idx[0]]), c3(P[idx[1]]), c3(P[idx[2]]), c3(P[idx[3]]))
+			got := xyz.DistanceLineToLine(c3of(c, idx[0]), c3of(c, idx[1]), c3of(c, idx[2]), c3of(c, idx[3]))
 			if err := check(fmt.Sprintf("xyz.DistanceLineToLine variant %d %v", vi, idx), got, d2, tol, false); err != nil {
 				return err
 			}
@@ -451,7 +491,7 @@ func windows(c Case, cc func(int) geom.Coord) error {
 	var call func(a []geom.Coord) float64
 	switch c.Fn {
 	case "dist3":
-		args = []geom.Coord{c3(c.P[0]), c3(c.P[1])}
+		args = []geom.Coord{c3of(c, 0), c3of(c, 1)}
 		call = func(a []geom.Coord) float64 { return xyz.Distance(a[0], a[1]) }
 	case "pt-seg2":
 		args = []geom.Coord{cc(0), cc(1), cc(2)}
@@ -460,13 +500,13 @@ func windows(c Case, cc func(int) geom.Coord) error {
 		args = []geom.Coord{cc(0), cc(1), cc(2)}
 		call = func(a []geom.Coord) float64 { return xy.PerpendicularDistanceFromPointToLine(a[0], a[1], a[2]) }
 	case "pt-seg3":
-		args = []geom.Coord{c3(c.P[0]), c3(c.P[1]), c3(c.P[2])}
+		args = []geom.Coord{c3of(c, 0), c3of(c, 1), c3of(c, 2)}
 		call = func(a []geom.Coord) float64 { return xyz.DistancePointToLine(a[0], a[1], a[2]) }
 	case "seg-seg2":
 		args = []geom.Coord{cc(0), cc(1), cc(2), cc(3)}
 		call = func(a []geom.Coord) float64 { return xy.DistanceFromLineToLine(a[0], a[1], a[2], a[3]) }
 	case "seg-seg3":
-		args = []geom.Coord{c3(c.P[0]), c3(c.P[1]), c3(c.P[2]), c3(c.P[3])}
+		args = []geom.Coord{c3of(c, 0), c3of(c, 1), c3of(c, 2), c3of(c, 3)}
 		call = func(a []geom.Coord) float64 { return xyz.DistanceLineToLine(a[0], a[1], a[2], a[3]) }
 	default:
 		return nil
